@@ -27,6 +27,8 @@ def collect(rng, quick):
     for q, r in built:
         for key, opt in (('trace', False), ('trace_opt', True)):
             t = r[key]
+            t['final']['hasdecl'] = True
+            t['final']['decl'] = gen.decl_of(q['module'])
             tmp.append({'phase': 'gamma', 'claims': [], 'events': t['events'], 'final': t['final'], 'name': 'expr', 'optimize': opt,
                         'error': t['error'], 'files': t['files'], 'src': 'expr', 'spec': q['module']})
             vcmds.append('verify ' + ' '.join(str(len(x)) + ' ' + ' '.join(map(str, x)) for x in t['files']))
